@@ -2,8 +2,11 @@ import CCVerif.Model.Checker
 import CCVerif.Spec.Typing
 import CCVerif.Lemmas.CheckerErr
 import CCVerif.Lemmas.CheckerSound
+import CCVerif.Lemmas.CheckerSound1
+import CCVerif.Lemmas.CheckerSoundTop
 import CCVerif.Lemmas.CheckerTotal
 import CCVerif.Model.CheckerPinned
+import CCVerif.Model.CheckerPinnedRec
 /-!
 # C03 — the checker's verdict and typification follow the typing rules
 
@@ -480,5 +483,342 @@ example : Core (.node .EQUAL .none 0 14 [.node .CARD .none 0 12 [.node .UNION .n
   .equal (Or.inl rfl) (.card (.setbin (Or.inl rfl) (.global (Or.inl rfl)) (.global (Or.inl rfl)))) .int
 example : (check ctxK (.node .EQUAL .none 0 14 [.node .CARD .none 0 12 [.node .UNION .none 5 10 [glob "X1" 5 7, glob "X1" 8 10]],
     .node .LIT_INTEGER (.int 1) 13 14 []])).out = .ok .logic := by decide +kernel
+
+/-! ### soundness beyond the binder-free core: bound variables, binders, whole inputs -/
+
+/-- for any fuel -/
+theorem check_sound_partial1_fuel (Γ : Ctx) (n : Nat) (e : Ast) (τ : ExprTy) (hc : Core1Top Γ e)
+    (h : (checkWithFuel Γ n e).out = .ok τ) : HasTopType Γ e τ (checkWithFuel Γ n e).args := by
+  unfold checkWithFuel at h ⊢
+  generalize hv : visit Γ n none e {} = r at h ⊢
+  obtain ⟨r, s⟩ := r
+  cases r with
+  | ok u =>
+    simp at h; subst h
+    exact core1_top_ok Γ hc n none s hv
+  | fail => simp at h
+  | stuck x => simp at h
+
+/-- SOUNDNESS of the checker model for every construct of the grammar (`check_sound_statement` with
+its missing side conditions made explicit; fragment `Core1Top` of Lemmas/CheckerSound1 +
+CheckerSoundTop): whole inputs — an expression, a function definition `[x1∈D1, …] body` (with the
+reported argument list: names AND types), `X1:==`, `D1:==e`, `F1:==[…] e`, `S1::=dom` — whose
+expressions are built from: the binder-free core of `check_sound_partial`, bound variables,
+radicals, ×, tuples, enumerations / bool, the quantifiers ∀ ∃ with a variable, a (nested) tuple
+pattern or an enumerated declaration, D{p∈S | P}, I{e | p:∈S; p:=e; cond}, R{p:=e | step},
+R{p:=e | cond | step} (type deduction by `StepReach` to a fixed point, result = merge with the type of
+the initial value), Fi, and calls of term-functions / predicates with template instantiation
+(`CompareTemplated` over mangled radicals = `matchArg` + `solve` + `instantiate`, Lemmas/Templates),
+nested arbitrarily. Scopes (`StartScope` / `EndScope` / `ClearLocalVariables`, re-declaration after the
+end of a scope, shadowing = error) are related to the lexical environment of the typing relation.
+Side conditions carried by the fragment (beyond the shape `Wf` of the parser's trees):
+* a call: the context is `CtxOk` (declared types mention no mangled template parameter `Rn‹F›`; every
+  template parameter of a function's result type occurs in a declared argument type) — decidable
+  sufficient condition `ctxOkB`;
+* a call in a logic position names a LOGIC-typed global, a call in a set position one that is not
+  (without it: `check_sound_needs_predtype_counterexample`);
+* a radical token is not itself a mangled name when the context is `CtxOk`.
+Not covered: nothing of the grammar; what is NOT proved is the converse (`check_complete_statement`). -/
+theorem check_sound_partial1 (Γ : Ctx) (e : Ast) (τ : ExprTy) (hc : Core1Top Γ e)
+    (h : (check Γ e).out = .ok τ) : HasTopType Γ e τ (check Γ e).args :=
+  check_sound_partial1_fuel Γ _ e τ hc h
+
+/-- for expressions of the fragment (set or logic position): typed in the empty environment,
+no argument list -/
+theorem check_sound_partial1_expr (Γ : Ctx) (e : Ast) (τ : ExprTy) (hc : Core1 Γ .S e ∨ Core1 Γ .L e)
+    (h : (check Γ e).out = .ok τ) : HasType Γ {} e τ ∧ (check Γ e).args = [] := by
+  unfold check checkWithFuel at h ⊢
+  generalize hv : visit Γ (Ast.depth e + 1) none e {} = r at h ⊢
+  obtain ⟨r, s⟩ := r
+  cases r with
+  | ok u =>
+    simp at h; subst h
+    rcases hc with hc | hc
+    · obtain ⟨a, b, _⟩ := (core1_sound Γ _).1 e hc none {} s {} hv goodSt_init rel_init
+      exact ⟨a, b.2.args⟩
+    · obtain ⟨a, b, _⟩ := (core1_sound Γ _).2.1 e hc none {} s {} hv goodSt_init rel_init
+      exact ⟨a, b.2.args⟩
+  | fail => simp at h
+  | stuck x => simp at h
+
+/-- `∀(a,b)∈S1 ∃x,y∈X1 (x=a & y∈D{z∈X1 | z=b})` -/
+def exBinders : Ast :=
+  .node .FORALL .none 0 40 [
+    .node .NT_TUPLE_DECL .none 1 6 [loc "a" 2 3, loc "b" 4 5], glob "S1" 7 9,
+    .node .EXISTS .none 10 40 [
+      .node .NT_ENUM_DECL .none 11 14 [loc "x" 11 12, loc "y" 13 14], glob "X1" 15 17,
+      .node .AND .none 19 39 [
+        .node .EQUAL .none 19 22 [loc "x" 19 20, loc "a" 21 22],
+        .node .IN .none 25 39 [loc "y" 25 26,
+          .node .NT_DECLARATIVE_EXPR .none 27 39 [loc "z" 29 30, glob "X1" 31 33,
+            .node .EQUAL .none 36 39 [loc "z" 36 37, loc "b" 38 39]]]]]]
+
+/-- non-vacuity of `check_sound_partial1`: the input is in the fragment and is accepted -/
+example : Core1 ctxK .L exBinders :=
+  .lQuant (Or.inl rfl)
+    (.deOfD (.dTuple (fun k hk => by
+      simp only [List.mem_cons, List.not_mem_nil, or_false] at hk
+      rcases hk with rfl | rfl <;> exact .dLocal)))
+    (.sGlobal (Or.inl rfl))
+    (.lQuant (Or.inr rfl)
+      (.deEnum (fun k hk => by
+        simp only [List.mem_cons, List.not_mem_nil, or_false] at hk
+        rcases hk with rfl | rfl <;> exact .dLocal))
+      (.sGlobal (Or.inl rfl))
+      (.lBin (Or.inl rfl) (.lEqual (Or.inl rfl) .sLocal .sLocal)
+        (.lElem (Or.inl rfl) .sLocal
+          (.sDeclarative .dLocal (.sGlobal (Or.inl rfl)) (.lEqual (Or.inl rfl) .sLocal .sLocal)))))
+example : (check ctxK exBinders).out = .ok .logic := by decide +kernel
+/-- the scope rules are exercised: re-declaring a visible variable is rejected (`localShadowing`),
+and a variable used after the end of its scope is rejected (`localOutOfScope`) -/
+example : (check ctxK (.node .FORALL .none 0 20 [loc "a" 1 2, glob "X1" 3 5,
+    .node .EXISTS .none 6 20 [loc "a" 7 8, glob "X1" 9 11, .node .EQUAL .none 12 15 [loc "a" 12 13, loc "a" 14 15]]])).errs
+    = [(0x8802, 7)] := by decide +kernel
+example : (check ctxK (.node .AND .none 0 30 [
+    .node .FORALL .none 0 12 [loc "a" 1 2, glob "X1" 3 5, .node .EQUAL .none 6 9 [loc "a" 6 7, loc "a" 8 9]],
+    .node .EQUAL .none 14 17 [loc "a" 14 15, loc "a" 16 17]])).errs = [(0x8815, 14)] := by decide +kernel
+
+/-- `I{(a, b) | a:∈X1; b:=a; a=b}` -/
+def exImperative : Ast :=
+  .node .NT_IMPERATIVE_EXPR .none 0 30 [
+    .node .NT_TUPLE .none 2 8 [loc "a" 3 4, loc "b" 6 7],
+    .node .ITERATE .none 11 16 [loc "a" 11 12, glob "X1" 14 16],
+    .node .ASSIGN .none 18 22 [loc "b" 18 19, loc "a" 21 22],
+    .node .EQUAL .none 24 27 [loc "a" 24 25, loc "b" 26 27]]
+
+example : Core1Top ctxK exImperative :=
+  .ofDef (.expr (Or.inl (.sImperative
+    (.sMany (Or.inr rfl) (fun k hk => by
+      simp only [List.mem_cons, List.not_mem_nil, or_false] at hk
+      rcases hk with rfl | rfl <;> exact .sLocal))
+    (fun b hb => by
+      simp only [List.mem_cons, List.not_mem_nil, or_false] at hb
+      rcases hb with rfl | rfl | rfl
+      · exact .iterate .dLocal (.sGlobal (Or.inl rfl))
+      · exact .assign .dLocal .sLocal
+      · exact .cond (.lEqual (Or.inl rfl) .sLocal .sLocal)))))
+example : (check ctxK exImperative).out = .ok (.ty (.coll (.tuple [.base "X1", .base "X1"]))) := by decide +kernel
+
+/-- the function definition `[a∈D{x∈X1 | x=x}, x∈X1] a=x` is in the fragment; the theorem gives its
+argument list with the types -/
+example : Core1Top ctxK exArgs :=
+  .ofDef (.funcdef
+    (fun k hk => by
+      simp only [List.mem_cons, List.not_mem_nil, or_false] at hk
+      rcases hk with rfl | rfl
+      · exact .mk (.sDeclarative .dLocal (.sGlobal (Or.inl rfl)) (.lEqual (Or.inl rfl) .sLocal .sLocal))
+      · exact .mk (.sGlobal (Or.inl rfl)))
+    (Or.inr (.lEqual (Or.inl rfl) .sLocal .sLocal)))
+example : HasTopType ctxK exArgs .logic [("a", .base "X1"), ("x", .base "X1")] := by
+  have h : (check ctxK exArgs).out = .ok .logic ∧
+      (check ctxK exArgs).args = [("a", .base "X1"), ("x", .base "X1")] := by decide +kernel
+  have := check_sound_partial1 ctxK exArgs .logic
+    (.ofDef (.funcdef
+      (fun k hk => by
+        simp only [List.mem_cons, List.not_mem_nil, or_false] at hk
+        rcases hk with rfl | rfl
+        · exact .mk (.sDeclarative .dLocal (.sGlobal (Or.inl rfl)) (.lEqual (Or.inl rfl) .sLocal .sLocal))
+        · exact .mk (.sGlobal (Or.inl rfl)))
+      (Or.inr (.lEqual (Or.inl rfl) .sLocal .sLocal)))) h.1
+  rw [h.2] at this; exact this
+
+/-- `S7::=ℬ(X1×X1)` and `D7:==X1∪X1` are in the fragment -/
+example : Core1Top ctxK (.node .PUNC_STRUCT .none 0 14 [glob "S7" 0 2,
+    .node .BOOLEAN .none 5 14 [.node .DECART .none 7 12 [glob "X1" 7 9, glob "X1" 10 12]]]) :=
+  .struct (.sUnary (Or.inr (Or.inl rfl)) (.sMany (Or.inl rfl) (fun k hk => by
+    simp only [List.mem_cons, List.not_mem_nil, or_false] at hk
+    rcases hk with rfl | rfl <;> exact .sGlobal (Or.inl rfl))))
+example : (check ctxK (.node .PUNC_STRUCT .none 0 14 [glob "S7" 0 2,
+    .node .BOOLEAN .none 5 14 [.node .DECART .none 7 12 [glob "X1" 7 9, glob "X1" 10 12]]])).out
+    = .ok (.ty (.coll (.tuple [.base "X1", .base "X1"]))) := by decide +kernel
+
+/-! ### recursion whose type deduction does not converge (defect K10, repaired) -/
+
+/-- `R{x := ∅ | {x}}` -/
+def exRecDiverge : Ast :=
+  .node .NT_RECURSIVE_SHORT .none 0 14 [loc "x" 2 3, .node .LIT_EMPTYSET .none 7 8 [],
+    .node .NT_ENUMERATION .none 11 14 [loc "x" 12 13]]
+
+private theorem ty_ne_coll (t : Ty) : t ≠ .coll t := by
+  intro h
+  have := congrArg sizeOf h
+  simp at this
+
+private theorem no_fix (Γ : Ctx) (Δ : Env) (τ : Ty) (lo hi l2 h2 : Int) (d : TokData)
+    (h : HasType Γ (Δ.add "x" τ) (.node .NT_ENUMERATION d lo hi [loc "x" l2 h2]) (.ty τ))
+    (hx : Δ.has "x" = false) : False := by
+  cases h with
+  | global a _ _ => rcases a with h | h | h <;> cases h
+  | enumeration _ hts hm =>
+    cases hts with
+    | cons hk hrest =>
+      cases hrest
+      simp only [mergeAll, Option.some.injEq] at hm
+      subst hm
+      cases hk with
+      | global a _ _ => rcases a with h | h | h <;> cases h
+      | local_ hg =>
+        rw [Env.get?_add _ _ _ hx] at hg
+        simp at hg
+        exact ty_ne_coll _ hg.symm
+
+/-- the declarative system gives `R{x := ∅ | {x}}` no type in any context: the rule needs a type τ
+with `x : τ ⊢ {x} : τ`, and `{x} : ℬ(τ)` -/
+theorem recursion_diverge_untypable (Γ : Ctx) (τ : ExprTy) (args : List (String × Ty)) :
+    ¬ HasTopType Γ exRecDiverge τ args := by
+  intro h
+  cases h with
+  | expr _ _ _ ht =>
+    cases ht with
+    | quant a _ _ _ _ => rcases a with h | h <;> cases h
+    | enumeration a _ _ => rcases a with h | h <;> cases h
+    | recShort _ _ _ _ _ hb hs _ =>
+      cases hb with
+      | var hx => exact no_fix _ _ _ _ _ _ _ _ hs hx
+
+example : WfTop ctxK [] exRecDiverge :=
+  .ofDef (.expr (Or.inl (.sRecShort .dLocal .sEmpty (.sEnum (fun k hk => by
+    simp only [List.mem_cons, List.not_mem_nil, or_false] at hk; subst hk; exact .sLocal)))))
+
+/-- K10 (pinned `ViRecursion`, Model/CheckerPinnedRec.lean): when the ≤ 5 rounds of type deduction
+did not reach a fixed point the loop simply ended and the last deduced type was reported:
+`R{x := ∅ | {x}}`, which has no type, was accepted with the typification ℬℬℬℬℬℬℬ(R0) -/
+theorem pinned_recursion_diverge_counterexample :
+    (checkPinnedRec ctxK exRecDiverge).out = .ok (.ty (.coll (.coll (.coll (.coll (.coll (.coll (.coll Ty.R0)))))))) ∧
+    (checkPinnedRec ctxK exRecDiverge).errs = [] ∧
+    ∀ τ args, ¬ HasTopType ctxK exRecDiverge τ args :=
+  ⟨by decide +kernel, by decide +kernel, fun τ args => recursion_diverge_untypable ctxK τ args⟩
+
+/-- the repaired code rejects it with `typesNotEqual` at the step expression -/
+example : (check ctxK exRecDiverge).out = .fail ∧ (check ctxK exRecDiverge).errs = [(0x8803, 11)] := by
+  decide +kernel
+
+/-! ### recursive terms and radicals in the fragment -/
+
+/-- `R{a := X1 | 1=1 | a∪X1}` -/
+def exRecFull : Ast :=
+  .node .NT_RECURSIVE_FULL .none 0 20 [loc "a" 2 3, glob "X1" 5 7,
+    .node .EQUAL .none 10 13 [.node .LIT_INTEGER (.int 1) 10 11 [], .node .LIT_INTEGER (.int 1) 12 13 []],
+    .node .UNION .none 16 20 [loc "a" 16 17, glob "X1" 18 20]]
+example : Core1Top ctxK exRecFull :=
+  .ofDef (.expr (Or.inl (.sRecFull .dLocal (.sGlobal (Or.inl rfl)) (.lEqual (Or.inl rfl) .sInt .sInt)
+    (.sSetbin (Or.inl rfl) .sLocal (.sGlobal (Or.inl rfl))))))
+example : (check ctxK exRecFull).out = .ok (.ty (.coll (.base "X1"))) := by decide +kernel
+
+/-- `R{a := ∅ | a∪X1}`: the type of the variable is deduced in two rounds, ℬ(R0) then ℬ(X1) -/
+def exRecShort : Ast :=
+  .node .NT_RECURSIVE_SHORT .none 0 14 [loc "a" 2 3, .node .LIT_EMPTYSET .none 5 6 [],
+    .node .UNION .none 9 13 [loc "a" 9 10, glob "X1" 11 13]]
+example : Core1Top ctxK exRecShort :=
+  .ofDef (.expr (Or.inl (.sRecShort .dLocal .sEmpty (.sSetbin (Or.inl rfl) .sLocal (.sGlobal (Or.inl rfl))))))
+example : (check ctxK exRecShort).out = .ok (.ty (.coll (.base "X1"))) := by decide +kernel
+
+/-- `[a∈ℬ(R1)] card(a)`: a radical in an argument domain; `ctxK` has no functions, so no name is mangled -/
+def exRadical : Ast :=
+  .node .NT_FUNC_DEFINITION .none 0 20 [.node .NT_ARGUMENTS .none 1 9 [
+    .node .NT_ARG_DECL .none 1 9 [loc "a" 1 2, .node .BOOLEAN .none 3 9 [.node .ID_RADICAL (.text "R1") 5 7 []]]],
+    .node .CARD .none 11 18 [loc "a" 16 17]]
+example : Core1Top ctxK exRadical :=
+  .ofDef (.funcdef
+    (fun k hk => by
+      simp only [List.mem_cons, List.not_mem_nil, or_false] at hk; subst hk
+      exact .mk (.sUnary (Or.inr (Or.inl rfl)) (.sRadical (fun _ f hf => by simp [ctxK, lookup] at hf))))
+    (Or.inl (.sUnary (Or.inl rfl) .sLocal)))
+example : (check ctxK exRadical).out = .ok (.ty Ty.Z) ∧ (check ctxK exRadical).args = [("a", .coll (.base "R1"))] := by
+  decide +kernel
+
+/-! ### calls with template instantiation, filters -/
+
+/-- `ctxK` plus the templated term-function `F1 : [a∈ℬ(R1), b∈R1] → ℬ(R1)` and the predicate
+`P1 : [a∈X1] → LOGIC` -/
+def ctxF : Ctx :=
+  { ctxK with
+    types := ("F1", .ty (.coll (.base "R1"))) :: ("P1", .logic) :: ctxK.types,
+    funcs := [("F1", [("a", .coll (.base "R1")), ("b", .base "R1")]), ("P1", [("a", .base "X1")])] }
+
+/-- the hypothesis of the call rule is satisfiable: `ctxF` is well formed for template instantiation -/
+theorem ctxF_ok : CtxOk ctxF := ctxOk_of_ctxOkB (by decide +kernel)
+
+/-- `∀x∈X1 (x∈F1[X1, x] & P1[x])` -/
+def exCall : Ast :=
+  .node .FORALL .none 0 30 [loc "x" 1 2, glob "X1" 3 5,
+    .node .AND .none 7 29 [
+      .node .IN .none 7 18 [loc "x" 7 8,
+        .node .NT_FUNC_CALL .none 9 18 [.node .ID_FUNCTION (.text "F1") 9 11 [], glob "X1" 12 14, loc "x" 16 17]],
+      .node .NT_FUNC_CALL .none 21 26 [.node .ID_PREDICATE (.text "P1") 21 23 [], loc "x" 24 25]]]
+
+example : Core1Top ctxF exCall :=
+  .ofDef (.expr (Or.inr (.lQuant (Or.inl rfl) (.deOfD .dLocal) (.sGlobal (Or.inl rfl))
+    (.lBin (Or.inl rfl)
+      (.lElem (Or.inl rfl) .sLocal (.sCall ctxF_ok (by decide) (fun k hk => by
+        simp only [List.mem_cons, List.not_mem_nil, or_false] at hk
+        rcases hk with rfl | rfl
+        · exact .sGlobal (Or.inl rfl)
+        · exact .sLocal)))
+      (.lCall ctxF_ok (by decide) (fun k hk => by
+        simp only [List.mem_cons, List.not_mem_nil, or_false] at hk; subst hk; exact .sLocal))))))
+example : (check ctxF exCall).out = .ok .logic := by decide +kernel
+/-- a template parameter that meets the any-type and a set: `F1[∅, ∅] : ℬℬ(R0)` -/
+example : (check ctxF (.node .NT_FUNC_CALL .none 0 9 [.node .ID_FUNCTION (.text "F1") 0 2 [],
+    .node .LIT_EMPTYSET .none 3 4 [], .node .LIT_EMPTYSET .none 6 7 []])).out
+    = .ok (.ty (.coll (.coll Ty.R0))) := by decide +kernel
+
+/-- `Fi1[X1](S1)` -/
+example : Core1Top ctxK (.node .FILTER (.tuple [1]) 0 11 ([glob "X1" 4 6] ++ [glob "S1" 8 10])) :=
+  .ofDef (.expr (Or.inl (.sFilter (by decide) (by simp)
+    (fun k hk => by simp only [List.mem_cons, List.not_mem_nil, or_false] at hk; subst hk; exact .sGlobal (Or.inl rfl))
+    (.sGlobal (Or.inl rfl)))))
+example : (check ctxK (.node .FILTER (.tuple [1]) 0 11 [glob "X1" 4 6, glob "S1" 8 10])).out
+    = .ok (.ty (.coll (.tuple [.base "X1", .base "X1"]))) := by decide +kernel
+
+/-! ### the full statement needs a hypothesis on the context -/
+
+/-- a context that gives the predicate name `P2` a set type (no `Schema` does) -/
+def ctxP : Ctx :=
+  { ctxK with types := ("P2", .ty (.coll (.base "X1"))) :: ctxK.types, funcs := [("P2", [("a", .coll (.base "X1"))])] }
+
+/-- `¬P2[X1]` -/
+def exPredSet : Ast :=
+  .node .NOT .none 0 7 [.node .NT_FUNC_CALL .none 1 7 [.node .ID_PREDICATE (.text "P2") 1 3 [], glob "X1" 4 6]]
+
+example : WfTop ctxP [] exPredSet :=
+  .ofDef (.expr (Or.inr (.lNot (.lCall (fun k hk => by
+    simp only [List.mem_cons, List.not_mem_nil, or_false] at hk; subst hk; exact .sGlobal (Or.inl rfl))))))
+
+private theorem call_P2_not_logic (Δ : Env) (lo hi : Int) (as : List Ast) (lf hf : Int) (kf : List Ast)
+    (τ : ExprTy) (h : HasType ctxP Δ (.node .NT_FUNC_CALL .none lo hi (.node .ID_PREDICATE (.text "P2") lf hf kf :: as)) τ) :
+    τ ≠ .logic := by
+  cases h with
+  | call hfn hft _ _ _ _ _ =>
+    simp only [Ast.data, TokData.text.injEq] at hfn
+    subst hfn
+    have : lookup ctxP.types "P2" = some (.ty (.coll (.base "X1"))) := by decide
+    rw [this] at hft
+    cases hft
+    intro e; cases e
+  | _ => simp_all
+
+/-- the connectives do not look at the type of their operands (`VisitAllAndSetCurrent`): with a
+context in which a name called like a predicate has a set type, `¬P2[X1]` is accepted as LOGIC
+although it has no type. The full statement therefore needs the hypothesis that a call in a logic
+position names a LOGIC-typed global (the side condition of `Core1.lCall`; true of every `Schema`) -/
+theorem check_sound_needs_predtype_counterexample :
+    (check ctxP exPredSet).out = .ok .logic ∧ ∀ τ args, ¬ HasTopType ctxP exPredSet τ args := by
+  refine ⟨by decide +kernel, fun τ args h => ?_⟩
+  cases h with
+  | expr _ _ _ ht =>
+    cases ht with
+    | not hc => exact call_P2_not_logic _ _ _ _ _ _ _ _ hc rfl
+    | enumeration a _ _ => rcases a with h | h <;> cases h
+
+/-- hence `check_sound_statement`, which quantifies over all contexts, does not hold as stated;
+`check_sound_partial1` is the statement with the needed side conditions made explicit -/
+theorem check_sound_statement_false : ¬ check_sound_statement := by
+  intro h
+  have hw : WfTop ctxP [] exPredSet :=
+    .ofDef (.expr (Or.inr (.lNot (.lCall (fun k hk => by
+      simp only [List.mem_cons, List.not_mem_nil, or_false] at hk; subst hk; exact .sGlobal (Or.inl rfl))))))
+  exact check_sound_needs_predtype_counterexample.2 _ _
+    (h ctxP [] exPredSet _ hw check_sound_needs_predtype_counterexample.1)
 
 end CCVerif.C03
